@@ -3,6 +3,8 @@ package taskfile
 import (
 	"context"
 	"fmt"
+	"net/http"
+	"net/http/httptest"
 	"net/url"
 	"os"
 	"path/filepath"
@@ -205,7 +207,61 @@ func ZZ_C09_NodeResolve() {
 //
 //gosmt:stub github.com/go-task/task/v3/taskfile.RemoteExists
 func zzRemoteExists(ctx context.Context, u *url.URL) (*url.URL, error) {
-	return nil, fmt.Errorf("zz: connection refused")
+	if !zzServerUp {
+		return nil, fmt.Errorf("zz: connection refused")
+	}
+	// the server has /first/Taskfile.yml: a directory-style URL is completed with the file name
+	if u.Path == "/first" || u.Path == "/first/" {
+		return u.JoinPath("Taskfile.yml"), nil
+	}
+	return u, nil
+}
+
+// the transfer itself is not encoded: it fails after the existence check (symbolic run)
+//
+//gosmt:stub (*net/http.Client).Do
+func zzClientDo(c *http.Client, req *http.Request) (*http.Response, error) {
+	return nil, fmt.Errorf("zz: transfer not encoded")
+}
+
+var zzServerUp bool
+
+// ZZ_C20_NodeOnlineOffline (2-safety): the URL under which a remote Taskfile's relative
+// include is looked up (and cached) must be the same whether the parent was just fetched
+// (online run, which approved and cached both) or is served from the cache (offline run,
+// server down): otherwise the approved child is not found in the cache.
+func ZZ_C20_NodeOnlineOffline() {
+	styles := []string{"/first/Taskfile.yml", "/first/", "/first"}
+	style := styles[zz.Choose("entrypoint_style", len(styles))]
+	base := "http://127.0.0.1:1"
+	if zz.Native() {
+		srv := httptest.NewServer(http.HandlerFunc(func(w http.ResponseWriter, r *http.Request) {
+			if r.URL.Path == "/first/Taskfile.yml" {
+				w.Header().Set("Content-Type", "text/yaml")
+				fmt.Fprint(w, "version: '3'\n")
+				return
+			}
+			http.NotFound(w, r)
+		}))
+		defer srv.Close()
+		base = srv.URL
+	}
+	zzServerUp = true
+	online, err1 := NewHTTPNode(base+style, "", true)
+	offline, err2 := NewHTTPNode(base+style, "", true)
+	zz.Assert(err1 == nil && err2 == nil, "nodes-created")
+	if err1 != nil || err2 != nil {
+		return
+	}
+	_, _ = online.ReadContext(context.Background()) // the online run reads the parent ...
+	a, ea := online.ResolveEntrypoint("./second/Taskfile.yml")
+	b, eb := offline.ResolveEntrypoint("./second/Taskfile.yml") // ... the offline run takes it from the cache
+	zz.Assert(ea == nil && eb == nil && a == b, "relative-include-of-a-remote-taskfile-resolves-the-same-online-and-from-the-cache/"+style)
+	zzServerUp = false
+	if zz.Twin() {
+		zz.Assert(false, "twin")
+	}
+	zz.Reach("end")
 }
 
 // ZZ_C20_HTTPNodeOffline: when the fetch of an approved remote Taskfile fails and the reader
